@@ -121,6 +121,10 @@ func (s *state) ProcessDescriptor(desc SegmentationDescriptor) ([]SegmentationDe
 	}
 	// remove all closed descriptors
 	s.open = s.open[0 : len(s.open)-len(closed)]
+	if s.inBlackout && s.blackoutIdx >= len(s.open) {
+		// the breakaway itself was closed, we are no longer in blackout
+		s.inBlackout = false
+	}
 
 	// validation logic
 	switch desc.TypeID() {
@@ -208,6 +212,13 @@ func (s *state) Close(desc SegmentationDescriptor) ([]SegmentationDescriptor, er
 			s.open[len(s.open)-1] = nil
 			// Truncate slice
 			s.open = s.open[:len(s.open)-1]
+			if s.inBlackout {
+				if i == s.blackoutIdx {
+					s.inBlackout = false
+				} else if i < s.blackoutIdx {
+					s.blackoutIdx--
+				}
+			}
 			closed = append(closed, d)
 			return closed, nil
 		}
